@@ -255,8 +255,15 @@ let run_msg (input : Sexp.t) (impl : Sexp.t) : Verdict.t =
     | Sexp.A "err" :: e -> RtErr (err_of_sx e)
     | _ -> RtPanic in
   let ((mtb, mpub), menc) = model_msg_obs v m in
-  let agree = (mtb = itb) && (mpub = ipub) && (menc = ienc) in
-  let oracle = c06_msg_ok v m itb ienc in
+  (* MessageFromPublish of that packet: model = message_from_publish; oracle = what must survive (msg_core) *)
+  let ifrom = (match Sexp.field_opt "from" impl with
+      | Some [Sexp.A "panic"] -> None
+      | Some [x] -> (try Some (Msgconv.msg_of_sx x) with _ -> None)
+      | _ -> None) in
+  let mfrom = message_from_publish mpub in
+  let same a b = (match a, b with Some x, Some y -> msg_eqb x y | None, None -> true | _, _ -> false) in
+  let agree = (mtb = itb) && (mpub = ipub) && (menc = ienc) && same mfrom ifrom in
+  let oracle = c06_msg_ok v m itb ienc && same (Some (msg_core (int_of_n v = 5) m)) ifrom in
   let sz = match ienc with RtBytes (b, _, _) -> List.length b | _ -> -1 in
   { Verdict.agree; oracle; kf = "-"; nontrivial = true;
     cls = Printf.sprintf "v%d_qos%d_%s" (int_of_n v) (int_of_n m.m_qos) (if sz < 0 then "err" else if sz < 130 then "small" else if sz < 16390 then "mid" else "large");
